@@ -28,6 +28,25 @@ def some_callback(sampler):
     return None
 
 
+class CallableObject:
+    """a callback given as an instance with __call__ (no __qualname__/__name__ of its own)"""
+
+    def __call__(self, sampler):
+        return None
+
+    def method(self, sampler):
+        return None
+
+
+def callbacks():
+    """the shapes a user-supplied callable takes: function, lambda, functools.partial, callable instance, bound method,
+    builtin, torch module instance (seeded change C19-c: an encoder branch that assumes every callable has __qualname__)"""
+    import functools
+    import torch
+    return [some_callback, (lambda s: None), functools.partial(some_callback), functools.partial(max, 1), CallableObject(),
+            CallableObject().method, math.tanh, torch.nn.Tanh(), torch.tanh, functools.partial(CallableObject())]
+
+
 def live_dtype(names):
     from nessai.livepoint import get_dtype
     return get_dtype(names)
@@ -97,7 +116,8 @@ def structured_array(rng):
     n = rng.choice([0, 1, 2, 4])
     dt = live_dtype(names)
     if extra:
-        dt = np.dtype(dt.descr + [("logW", "f8"), ("logQ", "f8"), ("logU", "f8")])
+        # (the importance sampler may already have registered its extra fields in this process)
+        dt = np.dtype(dt.descr + [(f, "f8") for f in ("logW", "logQ", "logU") if f not in dt.names])
     a = np.zeros(n, dtype=dt)
     for f in dt.names:
         if dt[f].kind == "f":
@@ -143,7 +163,7 @@ def array_list(rng, ragged=False):
 
 def opaque(rng):
     return rng.choice([SomeFlow, SomeFlow(), FakePool(), some_callback, (lambda x: x), b"ab", {1, 2},
-                       datetime.timedelta(seconds=3), 1 + 2j, np.dtype("f8"), Ellipsis, range(3)])
+                       datetime.timedelta(seconds=3), 1 + 2j, np.dtype("f8"), Ellipsis, range(3)] + callbacks())
 
 
 def value(rng, depth, profile):
@@ -195,10 +215,11 @@ def kwargs_tree(rng):
         "seed": lambda: rng.choice([None, 1234, np.int32(7)]),
         "pool": lambda: FakePool(),
         "n_pool": lambda: rng.choice([None, 4]),
-        "checkpoint_callback": lambda: rng.choice([some_callback, (lambda s: None)]),
+        "checkpoint_callback": lambda: rng.choice(callbacks()),
         "flow_class": lambda: rng.choice([SomeFlow, "GWFlowProposal", None]),
         "flow_config": lambda: {"model_config": {"ftype": rng.choice(["realnvp", SomeFlow]), "n_blocks": 2,
-                                                 "kwargs": {"batch_norm_between_layers": True, "activation": math.tanh}},
+                                                 "kwargs": {"batch_norm_between_layers": True,
+                                                            "activation": rng.choice([math.tanh] + callbacks()[2:])}},
                                 "lr": np.float64(0.001)},
         "reparameterisations": lambda: {"x": rng.choice(["default", {"reparameterisation": SomeFlow, "update_bounds": False}]),
                                         "y": None},
